@@ -1,3 +1,95 @@
-(* Props/C14.v — placeholder while the codec theorems are being proved: see
-   Proofs/CodecsProofs.v.  (Replaced below in this session.) *)
-From Verif Require Import Base.GoPrim Model.Codecs.
+(* Props/C14.v — text and JSON encodings of Duration, HostPort, Prefix and URL are
+   lossless.  net/url's Parse / String, netip.ParsePrefix / ParseAddr are ARBITRARY
+   functions; time.Duration.String / time.ParseDuration, net.Join/SplitHostPort and
+   encoding/json's string codec are the transcriptions of Std/. *)
+From Verif Require Import Base.GoPrim Base.Strings Std.Netip Std.Net Std.Time Std.Utf8 Std.Json Model.Codecs
+  Proofs.CodecsBase Proofs.CodecsProofs Proofs.DurationDigits Proofs.DurationProofs Proofs.Utf8Proofs Proofs.JsonProofs.
+
+(* ---- timeutil.Duration ---- *)
+
+(* String() never slices out of range and is time.Duration's text with the redundant
+   trailing zero units removed: for a non-zero whole number of minutes the text is
+   [-][H "h"][M "m"] (minutes omitted when zero), otherwise time.Duration's own text *)
+Theorem C14_dur_string : forall d, int64 d ->
+  dur_string d = Ret (if whole_minutes d then minutes_text d else fmt_duration d).
+Proof. exact dur_string_spec. Qed.
+
+(* ... and what was removed is exactly "0s" after non-zero minutes, "0m0s" after whole hours *)
+Theorem C14_dur_removed : forall d, int64 d -> whole_minutes d = true ->
+  fmt_duration d = minutes_text d ++ redundant_tail d.
+Proof. intros d H1 H2. apply (fmt_whole_minutes d H1 H2). Qed.
+
+(* UnmarshalText(MarshalText(d)) = d for every int64 *)
+Theorem C14_dur_roundtrip : forall d, int64 d -> exists s, dur_string d = Ret s /\ dur_unmarshal s = PVal d.
+Proof. exact dur_roundtrip. Qed.
+
+(* the standard library's half: ParseDuration inverts Duration.String on every int64 *)
+Theorem C14_parse_fmt_duration : forall d, int64 d -> parse_duration (fmt_duration d) = PVal d.
+Proof. exact parse_fmt_duration. Qed.
+
+(* ---- netutil.HostPort ---- *)
+Theorem C14_hostport : forall h p,
+  contains_byte h 91 = false -> contains_byte h 93 = false -> 0 <= p < 65536 ->
+  parse_host_port (hp_string h p) = Some (h, p).
+Proof. exact hostport_roundtrip. Qed.
+
+(* ---- netutil.Prefix ---- *)
+Theorem C14_prefix_slash : forall A P parse_prefix parse_addr single invalid b,
+  contains_byte b 47 = true -> prefix_unmarshal A P parse_prefix parse_addr single invalid b = parse_prefix b.
+Proof. exact prefix_with_slash. Qed.
+
+Theorem C14_prefix_bare : forall A P parse_prefix parse_addr single invalid b,
+  contains_byte b 47 = false -> b <> [] ->
+  prefix_unmarshal A P parse_prefix parse_addr single invalid b
+  = match parse_addr b with Some a => Some (single a) | None => None end.
+Proof. exact prefix_bare. Qed.
+
+(* ---- urlutil.URL ---- *)
+
+(* encoding/json's string codec returns valid UTF-8 text unchanged (HTML escaping on or off) *)
+Theorem C14_json_string : forall e rs, Forall scalar rs ->
+  junquote (jquote e (utf8_of rs)) = Some (utf8_of rs).
+Proof. exact json_string_roundtrip. Qed.
+
+(* MarshalText -> UnmarshalText returns a URL printing the same, for every URL whose
+   printed form net/url itself re-parses to the same text (stable) *)
+Theorem C14_url_text : forall U url_parse url_string u, stable U url_parse url_string u ->
+  exists u', url_unmarshal_text U url_parse (url_marshal_text U url_string u) = Some u' /\
+             url_string u' = url_string u.
+Proof. exact url_text_roundtrip. Qed.
+
+(* json.Marshal -> json.Unmarshal likewise, when the printed form is valid UTF-8 *)
+Theorem C14_url_json : forall U url_parse url_string u, stable U url_parse url_string u ->
+  valid_utf8 (url_string u) ->
+  exists u', url_unmarshal_json U url_parse (url_marshal_json U url_string u) = JVal u' /\
+             url_string u' = url_string u.
+Proof.
+  intros U url_parse url_string u Hst (rs & Hrs & Heq).
+  apply url_json_roundtrip; [exact Hst|]. rewrite Heq. apply json_string_roundtrip. exact Hrs.
+Qed.
+
+(* non-vacuity *)
+Example C14_examples :
+  dur_string 3600000000000 = Ret [49; 104] /\                                        (* 1h *)
+  dur_string (-3660000000000) = Ret [45; 49; 104; 49; 109] /\                        (* -1h1m *)
+  dur_string 61000000000 = Ret [49; 109; 49; 115] /\                                 (* 1m1s *)
+  dur_string 1500000 = Ret [49; 46; 53; 109; 115] /\                                 (* 1.5ms *)
+  dur_unmarshal [45; 49; 104; 49; 109] = PVal (-3660000000000) /\
+  fmt_duration (- two63) = [45;50;53;54;50;48;52;55;104;52;55;109;49;54;46;56;53;52;55;55;53;56;48;56;115] /\
+  parse_duration (fmt_duration (- two63)) = PVal (- two63) /\
+  hp_string [58; 58; 49] 53 = [91; 58; 58; 49; 93; 58; 53; 51] /\                    (* [::1]:53 *)
+  parse_host_port [91; 58; 58; 49; 93; 58; 53; 51] = Some ([58; 58; 49], 53) /\
+  jquote true [38; 60; 195; 169] = [34; 92;117;48;48;50;54; 92;117;48;48;51;99; 195; 169; 34] /\
+  junquote (jquote true [38; 60; 195; 169]) = Some [38; 60; 195; 169].
+Proof. vm_compute. repeat split; reflexivity. Qed.
+
+Print Assumptions C14_dur_string.
+Print Assumptions C14_dur_removed.
+Print Assumptions C14_dur_roundtrip.
+Print Assumptions C14_parse_fmt_duration.
+Print Assumptions C14_hostport.
+Print Assumptions C14_prefix_slash.
+Print Assumptions C14_prefix_bare.
+Print Assumptions C14_json_string.
+Print Assumptions C14_url_text.
+Print Assumptions C14_url_json.
